@@ -67,7 +67,35 @@ def run(ctx):
     H.log(out.strip())
     verdict, vs = ctx.validate("C15Trace.tla", "C15_trace.cfg", trace)
     nviol, known = H.report(ctx, verdict["bad"], lambda i: cases[i], trace)
+
+    # binding self-test: one recorded field altered must be objected to
+    def _get_other_bytes(evs):
+        for e in evs:
+            if e.get("proj") == "ok" and e.get("res") == "ok":
+                for g in e.get("get", {}).values():
+                    if g.get("res") == "ok":
+                        g["data"] = "0" + str(g["data"])
+                        return evs
+        return None
+
+    def _count_altered(evs):
+        for e in evs:
+            if e.get("proj") == "ok" and e.get("res") == "ok" and e.get("nobjs", 0) >= 1:
+                e["nobjs"] += 1
+                return evs
+        return None
+
+    def _free_altered(evs):
+        for e in evs[2:]:
+            if e.get("proj") == "ok" and e.get("res") == "ok" and "free" in e:
+                e["free"] += 8
+                return evs
+        return None
+    selftest = H.binding_selftest(ctx, "C15Trace.tla", "C15_trace.cfg", trace,
+                                  [("read-back-bytes-altered", _get_other_bytes), ("object-count-altered", _count_altered),
+                                   ("free-space-altered", _free_altered)], max_cases=800)
     cov = {
+        "binding_selftest": selftest,
         "states": mc.distinct + gr.distinct, "transitions": mc.generated + gr.generated,
         "traces_validated_against_impl": verdict["stats"]["cases"],
         "samples": [cases[0], cases[ngen // 2], {"cfg": cases[ngen]["cfg"], "ops": cases[ngen]["ops"][:12], "ops_total": len(cases[ngen]["ops"])}],
